@@ -10,6 +10,8 @@ if os.environ.get('FLAVOUR'):
     EXTRA = ' Spread them over different kinds of mistake: at least one involving state carried over between calls or sessions (caches, pools, reused buffers, package-level variables, lazily initialised values), at least one at a size / width / count boundary away from the sizes the existing tests use, and at least one on an error path, a rarely taken branch or a refactoring that looks behaviour-preserving.'
 if os.environ.get('FLAVOUR') == '2':
     EXTRA += ' Other people have already tried the most obvious sites (the central loop of the main functions of these files): prefer helper functions, initialisation and teardown paths, rarely used options, alternative API entry points (the ones the command line tools use rather than the ones the unit tests use), and behaviour that only shows on the second use of an object.'
+if os.environ.get('FLAVOUR') == '3':
+    EXTRA = ' Every change must look like an improvement a developer would make on purpose: an added fast path or special case (an operand that is zero, one, all ones, a power of two, equal to the other operand; a width that is a multiple of 8 or 64; an empty or single-element collection; a constant argument), a cache or memo of a computed value, a loop restructured for speed, a buffer allocated once instead of per call, an early return - and be wrong only in a corner of the case it handles (a sign, a width one above or below the usual ones, a second different key for the cache, a value at the boundary of the special case). Other people have already tried plain off-by-one errors and dropped guards in the main loops of these files.'
 if os.environ.get('FILES'):
     EXTRA += ' Every change must have its decisive edit in one of these files: ' + os.environ['FILES'] + ' (other people have already covered the remaining files listed as relevant; cooperating edits may touch a second file).'
 p = [json.loads(l) for l in open('/verif/properties.jsonl') if l.strip()]
